@@ -33,6 +33,10 @@ func specCellMatches(re *regexp.Regexp, v interface{}) bool {
 			}
 		}
 		return false
+	case []byte:
+		return re.Match(x)
+	case float64:
+		return re.MatchString(searchText(x))
 	default:
 		return re.MatchString(fmt.Sprintf("%v", x))
 	}
